@@ -338,3 +338,45 @@ class Outcome:
     value: Val | None = None
     exc: str | None = None
     line: int | None = None
+
+
+# ---- structural simplification of sequence terms (keeps E-matching triggers visible) -------------------
+
+
+def seq_nth(s, j):
+    """nth(s, j), pushed through ++ / unit / ite so that hypotheses about the parts can fire."""
+    if z3.is_app(s):
+        k = s.decl().kind()
+        if k == z3.Z3_OP_SEQ_UNIT:
+            return s.arg(0)
+        if k == z3.Z3_OP_SEQ_CONCAT:
+            parts = s.children()
+            off = z3.IntVal(0)
+            res = None
+            cases = []
+            for p in parts:
+                ln = z3.Length(p)
+                cases.append((off, ln, p))
+                off = off + ln
+            res = seq_nth(cases[-1][2], j - cases[-1][0])
+            for off_, ln, p in reversed(cases[:-1]):
+                res = z3.If(j < z3.simplify(off_ + ln), seq_nth(p, z3.simplify(j - off_)), res)
+            return res
+        if k == z3.Z3_OP_ITE:
+            return z3.If(s.arg(0), seq_nth(s.arg(1), j), seq_nth(s.arg(2), j))
+    return s[j]
+
+
+def seq_contains_elem(s, x):
+    """contains(s, unit(x)) pushed through ++ / unit / ite / empty."""
+    if z3.is_app(s):
+        k = s.decl().kind()
+        if k == z3.Z3_OP_SEQ_UNIT:
+            return s.arg(0) == x
+        if k == z3.Z3_OP_SEQ_EMPTY:
+            return z3.BoolVal(False)
+        if k == z3.Z3_OP_SEQ_CONCAT:
+            return z3.Or(*[seq_contains_elem(p, x) for p in s.children()])
+        if k == z3.Z3_OP_ITE:
+            return z3.If(s.arg(0), seq_contains_elem(s.arg(1), x), seq_contains_elem(s.arg(2), x))
+    return z3.Contains(s, z3.Unit(x))
